@@ -23,10 +23,16 @@ import (
 //	                                    agree bit for bit ("constants equal bound variables")
 
 func init() {
-	c19Extra = c19GramRun
+	c19Extra = func(f []string) (string, bool) {
+		if s, ok := c19HistRun(f); ok { // c19hist.go: one stage, many evaluations (pool state), docs examples
+			return s, true
+		}
+		return c19GramRun(f)
+	}
 	c19ExtraGen = func(r *Rand, tier string) []string {
 		out := append(c19GramGen(r, tier), c19F64Gen(r, tier)...) // c19f64.go: the IEEE instance
-		return append(out, c19EmptyGen(r, tier)...)               // c19empty.go: empty / blank-only groups at every position
+		out = append(out, c19HistGen(r, tier)...)   // c19hist.go
+		return append(out, c19EmptyGen(r, tier)...) // c19empty.go: empty / blank-only groups at every position
 	}
 }
 
